@@ -500,6 +500,10 @@ orc_bytecode_parse_function (OrcProgram *program, const orc_uint8 *bytecode)
     } else {
       OrcInstruction *insn;
 
+      if (program->n_insns >= ORC_N_INSNS) {
+        orc_program_set_error (program, "too many instructions");
+        return 0;
+      }
       insn = program->insns + program->n_insns;
 
       insn->opcode = opcode_set->opcodes + (bc - 32);
